@@ -24,7 +24,7 @@ theorem compose_sound_poly_any_sound_table (O : Oracle) (hO : O.Certified) (tie 
   Alg.compose_sound PTerm.holds PTerm.vars _ (polyPrims_spec O hO tie false tac rfl) c1 c2 c keep simp ord hord h
 
 /-- the real tactic table, any order -/
-theorem compose_sound_poly (O : Oracle) (hO : O.Certified) (tie : PTerm → Bool) (hint : PTerm → TL → Bool → Option (List Nat))
+theorem compose_sound_poly (O : Oracle) (hO : O.Certified) (tie : PTerm → Bool) (hint : PTerm → TL → List Var → Bool → Option (List Nat))
     (c1 c2 c : Contract PTerm) (keep : List Var) (simp : Bool) (ord : List Nat) 
     (h : compose (polyPrims O tie false (realTac O false hint)) c1 c2 keep simp ord = .ok c) :
     ∀ v, TL.holds c.a v → (TL.holds c1.a v → TL.holds c1.g v) → (TL.holds c2.a v → TL.holds c2.g v) →
